@@ -207,64 +207,64 @@ theorem mania_perf_nth (sk : Skills S) (objs : List ManiaObj) (perf : ManiaCount
     subst hv
     rfl
 
-/-- The same for taiko on regular maps (first two objects hits, at least three objects — the
-hypothesis C02 needs for taiko; units = hits): `nth` advances to hit number
-`i + min (n+1) remaining` — through the `(take, idx)` fast paths when `i < 2` — and evaluates
-with exactly that `passed_objects`. -/
-theorem taiko_perf_nth_partial (sk : Skills S) (rest : List Bool) (hne : rest ≠ [])
+/-- The same for taiko, for every object list (units = hits; since the fix of
+`TaikoGradualDifficulty::{next,nth}` no "first two objects are hits" hypothesis): `nth` advances to
+hit number `i + min (n+1) remaining` and evaluates with exactly that `passed_objects`. -/
+theorem taiko_perf_nth (sk : Skills S) (objs : List Bool)
     (perf : Nat × S → Nat → X → R) (g : TaikoGrad S) (i : Nat) (x : X) (n : Nat)
-    (hc : TaikoReg sk rest g i) :
-    let objs := true :: true :: rest
-    let H := 2 + hitsIn rest
+    (hc : TaikoCanon sk objs g i) :
+    let H := hitsIn objs
     (i < H →
       let j := i + min (n + 1) (H - i)
-      (perfNth (taikoMachine sk objs) (·.idx) perf g x n).1 = .some (perf (taikoValue sk rest j) j x) ∧
-      TaikoReg sk rest (perfNth (taikoMachine sk objs) (·.idx) perf g x n).2 j) ∧
+      (perfNth (taikoMachine sk objs) (·.idx) perf g x n).1 = .some (perf (taikoValue sk objs j) j x) ∧
+      TaikoCanon sk objs (perfNth (taikoMachine sk objs) (·.idx) perf g x n).2 j) ∧
     (i = H → (perfNth (taikoMachine sk objs) (·.idx) perf g x n).1 = .none) := by
-  intro objs H
-  have h := taikoNth_reg sk rest hne g i n false hc
-  have hm : (taikoMachine sk objs).nth g n = taikoNth sk objs g n false := rfl
+  intro H
+  have h := taikoNth_spec sk objs g i n hc
+  have hm : (taikoMachine sk objs).nth g n = taikoNth sk objs g n := rfl
   constructor
   · intro hlt j
-    obtain ⟨hv, hcn⟩ := h.1 hlt
+    have e : i + min n (hitsIn objs - i - 1) + 1 = j := by simp only [j, H]; omega
+    obtain ⟨hv, hcn⟩ := h.2 hlt
+    rw [e] at hv hcn
     unfold perfNth
     rw [hm]
-    generalize hr : taikoNth sk objs g n false = r at hv hcn
+    generalize hr : taikoNth sk objs g n = r at hv hcn
     obtain ⟨rv, rg⟩ := r
     simp only at hv hcn
     subst hv
-    exact ⟨by simp [hcn.idx, j, H], hcn⟩
+    exact ⟨by simp [hcn.idx], hcn⟩
   · intro heq
-    have hv := (h.2 heq).1
+    have hv := (h.1 heq).1
     unfold perfNth
     rw [hm]
-    generalize hr : taikoNth sk objs g n false = r at hv
+    generalize hr : taikoNth sk objs g n = r at hv
     obtain ⟨rv, rg⟩ := r
     simp only at hv
     subst hv
     rfl
 
-/-- taiko `last` (= `nth(usize::MAX)`) reports the last hit, from every regular state. -/
-theorem taiko_perf_last_partial (sk : Skills S) (rest : List Bool) (hne : rest ≠ [])
+/-- taiko `last` (= `nth(usize::MAX)`) reports the last hit, from every canonical state. -/
+theorem taiko_perf_last (sk : Skills S) (objs : List Bool)
     (perf : Nat × S → Nat → X → R) (g : TaikoGrad S) (i : Nat) (x : X) (big : Nat)
-    (hc : TaikoReg sk rest g i) (hlt : i < 2 + hitsIn rest) (hbig : 2 + hitsIn rest ≤ big) :
-    (perfNth (taikoMachine sk (true :: true :: rest)) (·.idx) perf g x big).1 =
-      .some (perf (taikoValue sk rest (2 + hitsIn rest)) (2 + hitsIn rest) x) := by
-  have h := (taiko_perf_nth_partial sk rest hne perf g i x big hc).1 hlt
+    (hc : TaikoCanon sk objs g i) (hlt : i < hitsIn objs) (hbig : hitsIn objs ≤ big) :
+    (perfNth (taikoMachine sk objs) (·.idx) perf g x big).1 =
+      .some (perf (taikoValue sk objs (hitsIn objs)) (hitsIn objs) x) := by
+  have h := (taiko_perf_nth sk objs perf g i x big hc).1 hlt
   simp only at h
-  have e : i + min (big + 1) (2 + hitsIn rest - i) = 2 + hitsIn rest := by omega
+  have e : i + min (big + 1) (hitsIn objs - i) = hitsIn objs := by omega
   rw [e] at h
   exact h.1
 
-/-- Non-vacuity (taiko): from the fresh state of `[hit, hit, roll, hit]`, `nth(1)` evaluates the
-2nd value with `passed_objects = 2`, `last` the 3rd with `passed_objects = 3`. -/
+/-- Non-vacuity (taiko): from the fresh state of `[roll, hit, roll, hit]` (irregular start), `nth(0)`
+evaluates the 1st value with `passed_objects = 1`, `last` the 2nd with `passed_objects = 2`. -/
 example :
-    let objs := [true, true, false, true]
+    let objs := [false, true, false, true]
     let sk : Skills (List Nat) := ⟨[], fun s i => s ++ [i]⟩
     let perf : Nat × List Nat → Nat → Unit → Nat × List Nat × Nat := fun v p _ => (v.1, v.2, p)
-    (perfNth (taikoMachine sk objs) (·.idx) perf (taikoNew sk objs) () 1).1 = .some (2, [], 2) ∧
+    (perfNth (taikoMachine sk objs) (·.idx) perf (taikoNew sk objs) () 0).1 = .some (1, [], 1) ∧
     (perfNth (taikoMachine sk objs) (·.idx) perf (taikoNew sk objs) () (2 ^ 64 - 1)).1
-      = .some (3, [0, 1], 3) := by
+      = .some (2, [0, 1], 2) := by
   decide
 
 /-- Non-vacuity of the builder theorem on concrete values. -/
